@@ -30,6 +30,20 @@ pub struct PanicInfo {
 thread_local! {
     static LAST_PANIC: RefCell<Option<PanicInfo>> = RefCell::new(None);
     static IN_CATCH: RefCell<u32> = RefCell::new(0);
+    /// the last panic that nobody caught: (message, location, raised inside the code under test?)
+    static UNCAUGHT: RefCell<Option<(String, String, bool)>> = RefCell::new(None);
+}
+
+/// Was the source file of a panic part of the code under test? The harness (root package) is
+/// compiled with relative paths, the path dependency on the repository with absolute ones;
+/// registry crates and the standard library are recognised by their directories.
+fn in_code_under_test(file: &str) -> bool {
+    file.starts_with('/') && !file.contains("/.cargo/") && !file.contains("/rustc/") && !file.contains("/.rustup/") && !file.contains("/rustlib/") && !file.contains("/harness/src/")
+}
+
+/// (message, location, in the code under test) of a panic raised outside every `catch`
+pub fn uncaught_panic() -> Option<(String, String, bool)> {
+    UNCAUGHT.with(|u| u.borrow().clone())
 }
 static HOOK: Once = Once::new();
 
@@ -54,8 +68,12 @@ pub fn install_panic_hook() {
                 })
                 .unwrap_or_default();
             if IN_CATCH.with(|c| *c.borrow()) == 0 {
-                // a panic of the harness itself: make it visible (worker stderr file)
-                eprintln!("HARNESS PANIC: {} at {:?}", msg, info.location());
+                // a panic outside every judged operation: make it visible (worker stderr file) and
+                // remember whether it was raised by the code under test (e.g. in Screen::new) or by
+                // the harness itself
+                let sut = info.location().map(|l| in_code_under_test(l.file())).unwrap_or(false);
+                eprintln!("{} PANIC: {} at {:?}", if sut { "UNCAUGHT MEMTERM" } else { "HARNESS" }, msg, info.location());
+                UNCAUGHT.with(|u| *u.borrow_mut() = Some((msg.clone(), loc.clone(), sut)));
             }
             LAST_PANIC.with(|p| {
                 let mut p = p.borrow_mut();
